@@ -19,6 +19,9 @@ SCANS = {
         ],
         # only sites that reach a ShardReplicaState: the receiver chain mentions replica_state / ShardReplicaState owner
         'receiver': r'(replica_state|shard_state|\bstate)\s*\.\s*$',
+        # a write site outside shard_state.rs loses the FRAME of wf (the new site may well re-establish it): undecided; the replay
+        # batteries of the property's units, which run on every check, turn a real stamp regression into a violation with an input
+        'frame_only': True,
     },
     # The representation invariant of the byte-string type (sds_wf: an Inline value has len <= 23) is pre- and postcondition of
     # every function of sds.rs (units sds_codec / sds_ops).  The variants of a pub enum are public: the invariant holds for every
